@@ -123,7 +123,9 @@ type TermStore struct {
 	Injective map[string]bool
 	// NonRange: ids of terms assumed not to be the output of any Injective function (per path).
 	NonRange map[int]bool
-	kb       strings.Builder
+	// KnownHash: real outputs of modelled hash functions on concrete inputs (see hashconst.go)
+	KnownHash map[string]knownHash
+	kb        strings.Builder
 }
 
 type ufSig struct {
@@ -132,7 +134,7 @@ type ufSig struct {
 }
 
 func NewTermStore() *TermStore {
-	ts := &TermStore{tab: make(map[string]*Term), ufs: make(map[string]ufSig), Injective: map[string]bool{}, NonRange: map[int]bool{}}
+	ts := &TermStore{tab: make(map[string]*Term), ufs: make(map[string]ufSig), Injective: map[string]bool{}, NonRange: map[int]bool{}, KnownHash: map[string]knownHash{}}
 	ts.True = ts.mk(&Term{Op: OConst, Sort: BoolSort, Val: 1})
 	ts.False = ts.mk(&Term{Op: OConst, Sort: BoolSort, Val: 0})
 	return ts
@@ -392,6 +394,17 @@ func (ts *TermStore) Eq(a, b *Term) *Term {
 		}
 		if a.Op == OConcat && b.Op == OConcat && a.Args[0].Sort == b.Args[0].Sort {
 			return ts.And(ts.Eq(a.Args[0], b.Args[0]), ts.Eq(a.Args[1], b.Args[1]))
+		}
+		if r := ts.eqHashConst(a, b); r != nil {
+			return r
+		}
+		// equal slices (>= 8 bytes, same position) of two collision-free hashes: treated
+		// as equality of the hashes (truncated-hash collisions are outside every claim)
+		if a.Op == OExtract && b.Op == OExtract && a.Val == b.Val && a.Sort.W >= 64 {
+			x, y := a.Args[0], b.Args[0]
+			if x.Op == OApp && y.Op == OApp && ts.Injective[x.Name] && ts.Injective[y.Name] {
+				return ts.Eq(x, y)
+			}
 		}
 	}
 	if a.Sort.K == KBool {
